@@ -74,6 +74,14 @@ def allocate_spec(ctx: Ctx):
         "A3: distributivity / cancellation instances (g - sum k_i)*q and "
         "M*q < n*q <=> M < n for q > 0 (lemma allocate/quanta)")
 
+    # |e_i| < q for every portion  =>  the remainder is fewer than n quanta
+    # (lemma allocate/quanta-bound: M*q == -(e_1 + .. + e_n), |e_i| < q, q > 0
+    #  =>  |M| < n)
+    ctx.axiom(z3.Implies(
+        z3.And(has, qu > 0, *[z3.And(-qu < e, e < qu) for e in es]),
+        z3.And(m < n, m > -n, mr * qu == -_sum(es))),
+        "A3: ground instance of lemma allocate/quanta-bound")
+
     def parts(o):
         v = o.value
         if not (isinstance(v, VTuple) and len(v.items) == 2 and
